@@ -71,13 +71,13 @@ static InlineX int pad4(int value)
 int ScaleX(rfbScreenInfoPtr from, rfbScreenInfoPtr to, int x)
 {
     if ((from==to) || (from==NULL) || (to==NULL)) return x;
-    return ((int)(((double) x / (double)from->width) * (double)to->width ));
+    return ((int)(((double) x * (double)to->width) / (double)from->width ));
 }
 
 int ScaleY(rfbScreenInfoPtr from, rfbScreenInfoPtr to, int y)
 {
     if ((from==to) || (from==NULL) || (to==NULL)) return y;
-    return ((int)(((double) y / (double)from->height) * (double)to->height ));
+    return ((int)(((double) y * (double)to->height) / (double)from->height ));
 }
 
 /* So, all of the encodings point to the ->screen->frameBuffer,
